@@ -117,6 +117,18 @@ impl NamespaceStates {
         state.finish(origin, result)
     }
 
+    /// The remote declined our sync request because it is already syncing with us.
+    ///
+    /// If our state still says that we are dialing (no request of the remote was accepted in the
+    /// meantime), nothing else would ever reset it: the slot is freed. Returns `true` if another
+    /// sync request should be triggered right afterwards.
+    pub fn connect_declined(&mut self, namespace: &NamespaceId, node: EndpointId) -> bool {
+        match self.entry(namespace, node) {
+            Some(state) => state.connect_declined(),
+            None => false,
+        }
+    }
+
     /// Set whether a [`super::live::Event::PendingContentReady`] may be emitted once the pending queue
     /// becomes empty.
     ///
@@ -202,6 +214,19 @@ impl PeerState {
         self.last_sync = Some((Instant::now(), result));
         self.state = SyncState::Idle;
         start.map(|s| (s, self.resync_requested))
+    }
+
+    fn connect_declined(&mut self) -> bool {
+        match self.state {
+            SyncState::Running {
+                origin: Origin::Connect(_),
+                ..
+            } => {
+                self.state = SyncState::Idle;
+                self.resync_requested
+            }
+            _ => false,
+        }
     }
 
     fn start_connect(&mut self, reason: SyncReason) -> bool {
